@@ -227,6 +227,84 @@ func c13InPlaceHooked(c *mon.Ctx, r *rand.Rand) {
 	c.Count("in_place_update_histories_with_hook")
 }
 
+// c13ManyExpressions: the process creates 9000 distinct filters and
+// evaluators (more than any ring of 1024 / 4096 / 8192 entries holds), then
+// creates the early ones again: each must be the one for ITS expression.
+var c13ManyDone = false
+
+func c13ManyExpressions(c *mon.Ctx) {
+	if c13ManyDone {
+		return
+	}
+	c13ManyDone = true
+	n := tierN(c.Tier, 9000, 40000)
+	text := func(i int) string { return fmt.Sprintf("Name == \"svc-%d\" or N == %d", i, i) }
+	datum := func(i int) interface{} { return map[string]interface{}{"Name": fmt.Sprintf("svc-%d", i), "N": -1} }
+	for i := 0; i < n; i++ {
+		f, _ := bexpr.CreateFilter(text(i))
+		ev, _, _, _ := createEval(text(i))
+		if f == nil || ev == nil {
+			return
+		}
+	}
+	c.Evals(2 * n)
+	for _, i := range []int{0, 1, 2, 17, 100, 1023, 1024, 4095, 4096, 8191, n - 1} {
+		if i >= n {
+			continue
+		}
+		f, _ := bexpr.CreateFilter(text(i))
+		ev, _, _, _ := createEval(text(i))
+		if f == nil || ev == nil {
+			continue
+		}
+		x := execute(f, []interface{}{datum(i), datum(i + 1)})
+		o1, o2 := evaluate(ev, datum(i)), evaluate(ev, datum(i+1))
+		if x.panic != "" || x.err != nil || lenOf(x.out) != 1 || o1.Class() != "T" || o2.Class() != "F" || ev.Expression() != text(i) || f.VerifEvaluator().Expression() != text(i) {
+			c.Violation("C13 history-dependent many-expressions", "after the process created thousands of other expressions, creating an early one again gives something that does not answer for it",
+				map[string]any{"expression": text(i), "created_before": n, "filter_kept": lenOf(x.out), "filter_error": fmt.Sprint(x.err) + x.panic, "evaluate_own": o1.String(), "evaluate_other": o2.String(), "Expression()": ev.Expression()})
+			return
+		}
+	}
+	c.Count("many_expression_runs")
+}
+
+// c13PointerUnknown: the unknown value is a POINTER; the caller changes what
+// it points to between calls (the evaluator was given the pointer).
+func c13PointerUnknown(c *mon.Ctx, r *rand.Rand) {
+	x := 5
+	s := "a"
+	type box struct{ V int }
+	b := &box{V: 1}
+	cases := []struct {
+		unk    interface{}
+		expr   string
+		mutate func()
+		undo   func()
+	}{
+		{&x, `zz == 5`, func() { x = 6 }, func() { x = 5 }}, {&s, `m.zz == a`, func() { s = "b" }, func() { s = "a" }}, {b, `zz.V == 1`, func() { b.V = 2 }, func() { b.V = 1 }},
+		{&x, `any l as v { v.zz == 5 }`, func() { x = 7 }, func() { x = 5 }},
+	}
+	cs := cases[r.Intn(len(cases))]
+	datum := map[string]interface{}{"m": map[string]interface{}{"k": 1}, "l": []interface{}{map[string]interface{}{"k": 1}}}
+	used, err, pan, _ := createEval(cs.expr, bexpr.WithUnknownValue(cs.unk))
+	if pan != "" || err != nil {
+		return
+	}
+	for phase, f := range []func(){func() {}, cs.mutate, cs.undo} {
+		f()
+		fresh, _, _, _ := createEval(cs.expr, bexpr.WithUnknownValue(cs.unk))
+		ou, of := evaluate(used, datum), evaluate(fresh, datum)
+		c.Evals(2)
+		if ou.Class() != of.Class() {
+			c.Violation(fmt.Sprintf("C13 history-dependent pointer-unknown-value used=%s fresh=%s", ou.Class(), of.Class()), "after the caller changed what the unknown value points to, a used evaluator answers differently from a fresh one given the same pointer",
+				map[string]any{"expression": cs.expr, "phase": phase, "used_evaluator": ou.String(), "fresh_evaluator": of.String()})
+			cs.undo()
+			return
+		}
+	}
+	c.Count("pointer_unknown_value_histories")
+}
+
 // c13ManySubjects: one evaluator sees hundreds of DISTINCT data (more than any
 // small cache holds: 64, 128, 256, 1024), then the earlier ones again in
 // another order; every answer must be the one a fresh evaluator gives.
@@ -344,6 +422,12 @@ func c13Run(c *mon.Ctx, idx int) {
 	}
 	if idx%25 == 2 {
 		c13InPlaceHooked(c, r)
+	}
+	if idx%25 == 3 {
+		c13PointerUnknown(c, r)
+	}
+	if idx%800 == 5 {
+		c13ManyExpressions(c)
 	}
 	if idx%20 == 0 {
 		c13SameRootType(c, r)
@@ -654,6 +738,44 @@ func c14Large(c *mon.Ctx, r *rand.Rand) {
 		c.Count("large_or_aliased:long-mixed-list")
 		return
 	}
+	// quantifiers over collections of 4096+ elements with an erroring element
+	// ahead of the first decisive one, and over typed map[string]string data
+	// whose entries error or decide depending on the value
+	if r.Intn(4) == 0 {
+		n := []int{4095, 4096, 4097, 5000}[r.Intn(4)]
+		l := make([]interface{}, n)
+		m := make(map[string]interface{}, n)
+		for i := range l {
+			l[i] = 0
+			m[fmt.Sprintf("k%06d", i)] = 0
+		}
+		epos, dpos := 5+r.Intn(n/8), n/2+r.Intn(n/2)
+		l[epos], l[dpos] = []interface{}{}, 1
+		m[fmt.Sprintf("k%06d", epos)], m[fmt.Sprintf("k%06d", dpos)] = []interface{}{}, 1
+		sm := map[string]string{"a": "hit", "b": "miss", "c": "miss", "d": "hit", "e": "x"}
+		type named map[string]string
+		datum := map[string]interface{}{"l": l, "m": m, "sm": sm, "nm": named(sm), "sl": []string{"miss", "hit"}}
+		text := []string{`any l as v { v == 1 }`, `all l as v { v != 1 }`, `any m as _, v { v == 1 }`, `all m as k, v { v != 1 }`, `any l as i, v { v == 1 and i != 0 }`,
+			`any sm as _, v { v == "hit" or v.x == 1 }`, `all sm as k, v { v == "miss" and v.x == 1 }`, `any sm as k, v { k == "e" or v.x == 1 }`, `any nm as _, v { v == "hit" or v.x == 1 }`, `all sm as k { k != "c" and sm.zz.y == 1 }`}[r.Intn(10)]
+		counts := map[string]int{}
+		ev, err, pan, _ := createEval(text)
+		if pan == "" && err == nil {
+			for i := 0; i < 14; i++ {
+				use := ev
+				if i%5 == 4 {
+					use, _, _, _ = createEval(text)
+				}
+				counts[evaluate(use, datum).Class()]++
+				c.Evals(1)
+			}
+			if len(counts) > 1 {
+				c.Violation(fmt.Sprintf("C14 nondeterministic %v large-collection", keysOf(counts)), "repeating the same call on a large collection / a typed string map with erroring and decisive elements gave different outcomes", map[string]any{"expression": text, "elements": n, "erroring_element_at": epos, "decisive_element_at": dpos, "outcome_counts": counts})
+			}
+		}
+		c.Count("large_or_aliased_map_scenarios")
+		c.Count("large_or_aliased:large-collection-mixed-outcomes")
+		return
+	}
 	sc := scens[r.Intn(len(scens))]
 	f, _ := bexpr.CreateFilter(sc.ftext)
 	if f == nil {
@@ -881,7 +1003,7 @@ func init() {
 		NumCases:    func(tier string) int { return tierN(tier, 4000, 150000) },
 		Run:         c13Run,
 		Required: func(tier string) []string {
-			return []string{"histories", "in_place_update_histories", "in_place_update_histories_with_hook", "long_runs", "many_subject_runs", "same_root_type_histories", "evaluate_calls", "execute_calls", "execute_results_written_into", "calls_after_an_error_follow", "call_outcome:T", "call_outcome:F", "call_outcome:E", "history_len:0", "history_len:2", "history_len:3"}
+			return []string{"histories", "in_place_update_histories", "in_place_update_histories_with_hook", "pointer_unknown_value_histories", "many_expression_runs", "long_runs", "many_subject_runs", "same_root_type_histories", "evaluate_calls", "execute_calls", "execute_results_written_into", "calls_after_an_error_follow", "call_outcome:T", "call_outcome:F", "call_outcome:E", "history_len:0", "history_len:2", "history_len:3"}
 		},
 	})
 	mon.Register(&mon.Prop{
